@@ -322,7 +322,7 @@ def require_returns_table(ck: Check, rule: str, summ: Summary, spec: Spec, table
     # the same function written with other control flow (conditional expression, early returns in another order)
     spec_val: Optional[Term] = None
     for c_, v_ in reversed(rows):
-        spec_val = v_ if spec_val is None else ("ife", c_, v_, spec_val)
+        spec_val = v_ if spec_val is None else summ.norm.mk_ife(c_, v_, spec_val)
     if spec_val is not None and rets and same_function(summ, spec_val):
         ck.ok(rule, construct, what, fi.loc)
         return True
